@@ -5,8 +5,12 @@ kind of the calling frame; private names answer with Tracer values that log
 every operation; env.is_safe_attribute is wrapped to log its consultations.
 Real Python objects (function, method, generator, coroutine, async generator,
 class, frame, code, traceback, namedtuple, module, str, int) are used as data
-too, with the forbidden (object, name) pairs decided by the documented rule
-"starts with an underscore or jinja2.sandbox.is_internal_attribute".
+too.  Forbidden (object, name) pairs on them: the name starts with an
+underscore, OR it is in PINNED_INTERNAL (the internal attribute names the
+sandbox module documents, pinned here so the oracle does not depend on the
+function under test), OR jinja2.sandbox.is_internal_attribute says so.  All
+other fetchable names of those objects ("public") are generated too and are
+judged by the value oracle (5) alone.
 Templates come from an adversarial grammar  base x name x access form x
 consumption form x environment variant.
 
@@ -20,6 +24,13 @@ Oracle per render
      followed by an is_safe_attribute consult for the same (object, name);
  (4) structural: the generated Python source has no ast.Attribute / constant
      ast.Subscript using a template-chosen name.
+ (5) value oracle, independent of every name classification: no value returned
+     by env.getattr / env.getitem (instance-level probes; generated code, the
+     attribute filters and format-field lookups all use them), approved by
+     is_safe_attribute, received by the recording callable (directly, in a
+     list, as a call result or as an iterated element) or printed is a frame,
+     code or traceback object, a function-globals / builtins dict, a module
+     __dict__, or a class - whatever name the template used to ask for it.
 """
 from __future__ import annotations
 
@@ -35,7 +46,9 @@ LEVEL = "exploration"
 TECHNIQUE = "probe objects with caller-frame classification + tracer values + wrapped is_safe_attribute + AST check of generated code, over an adversarial access-path grammar"
 RULE = ("case = (base object expression [probe root/child/list element/method result/loop or "
         "macro or set alias | real function, method, generator, coroutine, async generator, "
-        "class, frame, code, traceback, namedtuple, module, str, int], forbidden name, access "
+        "class, frame, code, traceback, namedtuple, module, str, int], name [forbidden: underscore / "
+        "pinned documented internal names / is_internal_attribute; or any other fetchable "
+        "name of the real object, judged by the value oracle only], access "
         "form [dot, subscript (literal/concatenated/variable), |attr, map/select*/reject*/sort/"
         "unique/groupby/sum/min/max/join attribute arguments incl. dotted+integer paths, "
         "str.format / format_map / Markup.format with positional, keyword, index, conversion, "
@@ -45,12 +58,15 @@ RULE = ("case = (base object expression [probe root/child/list element/method re
         "rest seeded sampling; distinct by that tuple; non-trivial when the harness itself can "
         "fetch the attribute from the object (so a bypass would have something to hand over)")
 LEVEL_TEXT = ("held on every generated (template, data) pair: tracer silence, undefined/SecurityError "
-              "outcome, no template-frame fetch, consult-after-fetch, clean generated code; bounded "
-              "to the grammar above")
+              "outcome, no template-frame fetch, consult-after-fetch, clean generated code, and no "
+              "frame/code/traceback/globals-dict/module-dict/class value on any observation channel "
+              "whatever the attribute name; bounded to the grammar above")
 ASSUMPTIONS = [
     "template code is recognised as code objects whose co_filename is not a file on disk",
     "fetches of Python/Jinja protocol names (__class__, __html__, __call__, __aiter__, jinja_pass_arg, unsafe_callable, alters_data ...) by the engine are not attributed to the template",
-    "forbidden = name starts with '_' or jinja2.sandbox.is_internal_attribute(obj, name) (the documented default policy)",
+    "forbidden = name starts with '_' or is in PINNED_INTERNAL or jinja2.sandbox.is_internal_attribute(obj, name) (the documented default policy)",
+    "PINNED_INTERNAL is a baseline pinned at jinja commit 2aee529: exactly the names the sandbox module's documented constants (UNSAFE_GENERATOR_ATTRIBUTES, UNSAFE_COROUTINE_ATTRIBUTES, UNSAFE_ASYNC_GENERATOR_ATTRIBUTES) and the is_internal_attribute docstring (mro of a class) name as internal; it is not read from the module at run time; a deliberate upstream change of that list needs the baseline updated",
+    "value oracle: frame, code and traceback objects, dicts containing '__builtins__' (function globals, builtins), module __dict__s and type objects are interpreter internals that no attribute of the generated data objects may hand to a template; the data objects were chosen so that none of their public attributes legitimately has such a value (checked by the harness per case: a public name whose own value is of such a kind is a reported violation only if the sandbox hands it over)",
     "item access with underscore keys on mappings is not attribute access and is not generated",
 ]
 NSHARDS = {"quick": 16, "thorough": 16}
@@ -61,13 +77,17 @@ FLOORS = {
                            "nonprotocol_fetches": 2000, "sink_undefined": 200,
                            "structural_checks": 2500, "async_renders": 700,
                            "real_object_cases": 1000, "format_cases": 1000,
-                           "public_controls_ok": 32}},
+                           "public_controls_ok": 32, "value_oracle_checks": 9000,
+                           "dangerous_value_cases": 220, "pinned_internal_cases": 40,
+                           "public_name_cases": 120, "value_controls_ok": 32}},
     "thorough": {"evaluations": 60000, "distinct": 50000,
                  "counters": {"probe_fetches": 250000, "consults": 80000, "rule3_checks": 50000,
                               "nonprotocol_fetches": 50000, "sink_undefined": 5000,
                               "structural_checks": 60000, "async_renders": 15000,
                               "real_object_cases": 20000, "format_cases": 20000,
-                              "public_controls_ok": 32}},
+                              "public_controls_ok": 32, "value_oracle_checks": 300000,
+                              "dangerous_value_cases": 5000, "pinned_internal_cases": 1000,
+                              "public_name_cases": 4000, "value_controls_ok": 32}},
 }
 
 # ------------------------------------------------------------------- data
@@ -94,6 +114,19 @@ REAL_NAMES = [
     "_fields", "_replace", "_make", "__builtins__", "__name__", "__qualname__", "__doc__",
     "__reduce_ex__", "__getattribute__", "__add__", "_private", "__wrapped__",
 ]
+#: Baseline of documented internal attribute names, PINNED (jinja 2aee529): the
+#: module constants UNSAFE_GENERATOR_ATTRIBUTES / UNSAFE_COROUTINE_ATTRIBUTES /
+#: UNSAFE_ASYNC_GENERATOR_ATTRIBUTES and the is_internal_attribute docstring
+#: ("mro" of a class).  Deliberately a literal copy of the *documented names*,
+#: not a run-time read of the module: the function under test must not be its
+#: own oracle.  (UNSAFE_FUNCTION_ATTRIBUTES / UNSAFE_METHOD_ATTRIBUTES are
+#: documented as empty; the docstring's func_code does not exist on Python 3.)
+PINNED_INTERNAL = {
+    "generator": ("gi_frame", "gi_code"),
+    "coroutine": ("cr_frame", "cr_code"),
+    "asyncgen": ("ag_frame", "ag_code"),
+    "class": ("mro",),
+}
 REAL_KINDS = ["function", "method", "generator", "coroutine", "asyncgen", "class", "frame",
               "code", "traceback", "namedtuple", "module", "str", "int", "builtin"]
 
@@ -145,25 +178,49 @@ def make_real(kind):
 _forbidden_cache = {}
 
 
-def real_forbidden_names(kind):
-    """Names from REAL_NAMES that exist on the object and that the documented
-    default policy forbids."""
+def _classify_names(kind):
     if kind not in _forbidden_cache:
         from jinja2.sandbox import is_internal_attribute
 
         obj, cleanup = make_real(kind)
-        out = []
-        for n in REAL_NAMES:
+        forb, pub = [], []
+        pinned = PINNED_INTERNAL.get(kind, ())
+        # forbidden names: from the fixed escape-primitive list; public names:
+        # everything else the object offers (dir() is sorted: deterministic)
+        for n in REAL_NAMES + [n for n in sorted(dir(obj)) if n not in REAL_NAMES]:
             try:
                 getattr(obj, n)
             except Exception:
                 continue
-            if n.startswith("_") or is_internal_attribute(obj, n):
-                out.append(n)
+            if n.startswith("_"):
+                if n in REAL_NAMES:
+                    forb.append(n)
+            elif n in pinned or is_internal_attribute(obj, n):
+                if n in REAL_NAMES or n in pinned:
+                    forb.append(n)
+            else:
+                pub.append(n)
         if cleanup:
             cleanup()
-        _forbidden_cache[kind] = out
+        _forbidden_cache[kind] = (forb, pub)
     return _forbidden_cache[kind]
+
+
+def real_forbidden_names(kind):
+    """Names from REAL_NAMES that exist on the object and that the documented
+    default policy (underscore / pinned documented internal names /
+    is_internal_attribute) forbids."""
+    return _classify_names(kind)[0]
+
+
+def real_public_names(kind):
+    """Every other fetchable name of the object: the sandbox may hand these
+    over, but never with an interpreter-internal value (value oracle)."""
+    return _classify_names(kind)[1]
+
+
+def is_forbidden(case):
+    return case["obj"] == "probe" or case["name"] in real_forbidden_names(case["obj"])
 
 
 def name_category(name, objkind):
@@ -171,6 +228,8 @@ def name_category(name, objkind):
         return "__x"
     if name.startswith("_"):
         return "_x"
+    if objkind != "probe" and name not in real_forbidden_names(objkind):
+        return "public"
     return "internal"
 
 
@@ -307,6 +366,10 @@ VALUED_ACCESS = [k for k, v in ACCESS.items() if v[2]]
 CHECKED_CONSUME = [k for k, v in CONSUME.items() if v[1] in ("sink", "defined", "default")]
 UNDEFINEDS = ["Undefined", "StrictUndefined", "ChainableUndefined"]
 
+#: printed forms of interpreter internals (value oracle, print channel; applied
+#: to every case, also public names)
+DANGER_TOKENS = ["<frame at 0x", "<code object", "<traceback object at", "<class '",
+                 "'__builtins__'"]
 GENERIC_TOKENS = ["<class '", "<frame ", "<code object", "<built-in method", "<bound method",
                   "<function ", "mappingproxy(", "__builtins__", "<slot wrapper",
                   "<method-wrapper", "<cell ", "<attribute '", "<member '"]
@@ -387,15 +450,22 @@ def run_case(ctx, case, count=True):
     log = P.Log()
     received = []
 
+    exempt = []
+
     def sink(*a, **k):
         for v in list(a) + list(k.values()):
             received.append(v)
             if P.contains_tracer(v):
                 log.tracer("sink", "passed-to-callable")
+            log.value_checks += 1
+            dk = P.danger_kind(v, exempt)
+            if dk:
+                log.danger("recording-callable", dk, type(v).__name__)
         return ""
 
     is_probe = case["obj"] == "probe"
     name = case["name"]
+    forbidden = is_forbidden(case)
     cleanup = None
     data = {"nm": name, "sink": sink, "fmtstr": "<{0.%s}>" % name,
             "fmtmarkup": Markup("<{x.%s}>" % name)}
@@ -408,18 +478,35 @@ def run_case(ctx, case, count=True):
         r, cleanup = make_real(case["obj"])
         log.labels[id(r)] = "r"
         data["r"] = r
+        exempt.append(r)
         try:
             forbidden_value = getattr(r, name)
         except Exception:
             forbidden_value = None
+        own_kind = P.danger_kind(forbidden_value, exempt)
+        if count:
+            if own_kind:
+                # a bypass on this case would hand over an interpreter internal
+                ctx.count("dangerous_value_cases")
+                ctx.count("dangerous_value_cases:" + own_kind)
+            if name in PINNED_INTERNAL.get(case["obj"], ()):
+                ctx.count("pinned_internal_cases")
+            if not forbidden:
+                ctx.count("public_name_cases")
     # instance-level recording wrapper (re-installed per case: fresh log)
     orig = env.vt_orig_isa
 
     def is_safe_attribute(obj, attr, value):
         verdict = orig(obj, attr, value)
         log.consult(obj, attr, verdict, value)
+        if verdict:
+            log.value_checks += 1
+            dk = P.danger_kind(value, exempt)
+            if dk:
+                log.danger("is_safe_attribute=True", dk, f"{type(obj).__name__}.{attr}")
         return verdict
     env.is_safe_attribute = is_safe_attribute
+    unhook = P.install_value_hooks(env, log, exempt)
     full = dict(case, source=source)
     names = template_names(case)
     mech = f"{case['access']}:{case['obj']}:{name_category(name, case['obj'])}"
@@ -433,7 +520,9 @@ def run_case(ctx, case, count=True):
             return False
         if count:
             ctx.count("structural_checks")
-        if bad:
+        if bad and forbidden:
+            # (public names of real objects, e.g. 'format' or 'join', legitimately
+            # occur as filter names / engine attributes in generated code)
             ctx.violation(f"structural-direct-access:{mech}",
                           f"generated code for {source!r} contains {bad[:3]} on template-chosen "
                           f"name(s) {sorted(names)}", full)
@@ -446,6 +535,7 @@ def run_case(ctx, case, count=True):
             out, exc = None, (type(e).__name__, str(e)[:160])
     finally:
         env.is_safe_attribute = orig
+        unhook()
         if cleanup:
             cleanup()
     ev = log.events
@@ -469,6 +559,7 @@ def run_case(ctx, case, count=True):
             ctx.count("real_object_cases")
         if case["access"] in FORMAT_ACCESS:
             ctx.count("format_cases")
+        ctx.count("value_oracle_checks", log.value_checks)
         ctx.dist([case[k] for k in ("obj", "base", "name", "access", "consume", "async",
                                     "autoescape", "undefined", "immutable")])
     where = f"{source!r} (obj={case['obj']}, async={case['async']}, autoescape={case['autoescape']}, " \
@@ -477,6 +568,30 @@ def run_case(ctx, case, count=True):
     if tracer_ops:
         ctx.violation(f"tracer-used:{mech}",
                       f"private attribute value was used: {tracer_ops[:4]} in {where}", full)
+    # ---- (5) value oracle: independent of the name classification
+    dangers = [e for e in ev if e[0] == "danger"]
+    if out is not None and (valued or case["access"] in FORMAT_ACCESS):
+        # (the other access forms print the context object itself, e.g. the
+        # filtered list [r], and r may be a class / frame / code object)
+        own = "".join(repr(o) for o in exempt)
+        for t in DANGER_TOKENS:
+            if t in out and t not in own:
+                dangers.append(["danger", "printed", {"<frame at 0x": "frame", "<code object": "code",
+                                                      "<traceback object at": "traceback",
+                                                      "<class '": "class"}.get(t, "globals-dict"), t])
+    seen_kinds = []
+    for _, channel, vkind, detail in dangers:
+        if vkind in seen_kinds:
+            continue
+        seen_kinds.append(vkind)
+        chans = sorted({d[1] for d in dangers if d[2] == vkind})
+        ctx.violation(f"internal-value-handed:{mech}:{vkind}",
+                      f"a {vkind} value reached the template (channels {chans}, first: {channel} "
+                      f"{detail}) for name {name!r}: {where}", full)
+    if not forbidden:
+        # public name of a real object: only the value oracle (and the tracer
+        # channel above) applies; the sandbox may hand the value over
+        return True
     if out is not None:
         toks = [P.TOKEN] if P.TOKEN in out else []
         if not is_probe and forbidden_value is not None and (valued or case["access"] in FORMAT_ACCESS):
@@ -576,6 +691,44 @@ def public_control(ctx, is_async, autoescape):
         ctx.inconc("monitor self-test failed: tracer channel silent in an unsandboxed environment")
 
 
+def value_control(ctx, is_async, autoescape):
+    """Self-test of the value oracle's channels: in an UNSANDBOXED environment
+    with the same probes installed, internals must be seen on every channel."""
+    import jinja2
+
+    env = jinja2.Environment(enable_async=is_async, autoescape=autoescape, cache_size=0)
+    want = {"asyncgen": ("ag_frame", "frame"), "generator": ("gi_code", "code"),
+            "function": ("__globals__", "globals-dict"), "int": ("__class__", "class"),
+            "traceback": ("tb_frame", "frame"), "module": ("__dict__", "module-dict")}
+    ok = True
+    for kind, (attr, vkind) in want.items():
+        log = P.Log()
+        r, cleanup = make_real(kind)
+        exempt = [r]
+
+        def sink(v):
+            k = P.danger_kind(v, exempt)
+            if k:
+                log.danger("recording-callable", k, "")
+            return ""
+        unhook = P.install_value_hooks(env, log, exempt)
+        try:
+            env.from_string("{{ sink(r.%s) }}{{ '{0.%s}'.format(r)[:0] }}" % (attr, attr)).render(r=r, sink=sink)
+        finally:
+            unhook()
+            if cleanup:
+                cleanup()
+        got = {(e[1], e[2]) for e in log.events if e[0] == "danger"}
+        if not {("env.getattr", vkind), ("recording-callable", vkind)} <= got:
+            ok = False
+            ctx.inconc(f"value-oracle self-test failed for {kind}.{attr}: {sorted(got)}")
+    if "getattr" in env.__dict__ or P.danger_kind([1, "a", {"x": 1}, None]) is not None:
+        ok = False
+        ctx.inconc("value-oracle self-test failed: hooks left behind / benign value classified")
+    if ok:
+        ctx.count("value_controls_ok")
+
+
 # ------------------------------------------------------------------ cases
 def env_variant(i):
     return {"async": i % 3 == 0, "autoescape": i % 2 == 0,
@@ -608,7 +761,9 @@ def core_cases():
                 c["base"] = "child"
             out.append(c)
         for kind in REAL_KINDS:
-            for name in real_forbidden_names(kind):
+            pub = real_public_names(kind)
+            # every forbidden name + one rotating public name (value oracle only)
+            for name in real_forbidden_names(kind) + ([pub[i % len(pub)]] if pub else []):
                 i += 1
                 c = {"obj": kind, "base": list(REAL_BASES)[i % len(REAL_BASES)], "name": name,
                      "access": access, "consume": sinks[i % len(sinks)], **env_variant(i)}
@@ -627,6 +782,8 @@ def random_case(rng):
             obj = rng.choice(REAL_KINDS)
             base = rng.choice(list(REAL_BASES))
             names = real_forbidden_names(obj)
+            if rng.random() < 0.25:
+                names = real_public_names(obj)
             if not names:
                 continue
             name = rng.choice(names)
@@ -646,6 +803,7 @@ def run(ctx):
     for a in (False, True):
         for ae in (False, True):
             public_control(ctx, a, ae)
+            value_control(ctx, a, ae)
     core = core_cases()
     ctx.extra["core_cases_total"] = len(core) if ctx.shard == 0 else 0
     stride = 5 if quick else 1
